@@ -1,10 +1,10 @@
 SPECIFICATION Spec
 CONSTANTS
   DeliverPhase = "start"
-  ImrVals <- ImrSmall
-  MaxDepth = 7
+  ImrVals <- ImrFull
+  MaxDepth = 9
   MaxNest = 2
-  AckOnReturn = FALSE
+  AckOnReturn = TRUE
   RecordActs = FALSE
 INVARIANT DeliverOnlyIfEnabled
 INVARIANT FrameOnEntry
